@@ -436,9 +436,14 @@ func readAll(ctx context.Context, ndb dbApi.NodeDB, root node.Root) (model, erro
 func applyToTree(ctx context.Context, tree mkvs.Tree, ops []op) error {
 	for _, o := range ops {
 		var err error
-		if o.Value == nil {
+		switch {
+		case o.Value == nil:
 			err = tree.Remove(ctx, o.Key)
-		} else {
+		case len(o.Value) == 0 && len(o.Key)%2 == 0:
+			// An insert of the empty value is made with a NIL value slice for half of the keys (the
+			// documented equivalent: Insert stores the empty value for a nil argument; no PRNG draw).
+			err = tree.Insert(ctx, o.Key, nil)
+		default:
 			err = tree.Insert(ctx, o.Key, o.Value)
 		}
 		if err != nil {
